@@ -55,14 +55,14 @@ func (fr *Frame) coerce(c Val, other Val) Val {
 		return c
 	}
 	if other.K == KConst {
-		return scalar(types.Typ[types.Int], BVBig(c.Big.(*bigInt).v, 64))
+		return scalar(types.Typ[types.Int], IntBig(c.Big.(*bigInt).v))
 	}
 	if other.K == KNormal && len(other.C) == 1 {
 		if w := sortWidth(other.C[0].Sort); w > 0 {
 			return scalar(other.T, BVBig(c.Big.(*bigInt).v, w))
 		}
 		if other.C[0].Sort == SInt {
-			return scalar(other.T, IntT(c.Big.(*bigInt).v.Int64()))
+			return scalar(other.T, IntBig(c.Big.(*bigInt).v))
 		}
 	}
 	cfail("cannot use constant with value of type %v", other.T)
@@ -157,6 +157,9 @@ func (fr *Frame) constantVal(sc *Scope, cv constant.Value, t types.Type) Val {
 		bi, _ := new(big.Int).SetString(cv.ExactString(), 10)
 		if b, ok := t.Underlying().(*types.Basic); ok {
 			if w, _, ok := basicWidth(b); ok && b.Info()&types.IsUntyped == 0 {
+				if isWide(t) {
+					return scalar(t, IntBig(bi))
+				}
 				return scalar(t, BVBig(bi, w))
 			}
 		}
@@ -242,6 +245,9 @@ func (fr *Frame) evalUnary(sc *Scope, x *EUn) Val {
 			return constVal(new(big.Int).Neg(v.Big.(*bigInt).v))
 		}
 		t := v.Term()
+		if t.Sort == SInt {
+			return scalar(v.T, wrapInt(ISub(IntT(0), t), isSigned(v.T)))
+		}
 		return scalar(v.T, app(t.Sort, "bvneg", t))
 	case "+":
 		return v
@@ -348,10 +354,10 @@ func (fr *Frame) evalBinary(sc *Scope, x *EBin) Val {
 	var opT types.Type
 	if x.Op == "<<" || x.Op == ">>" {
 		if a.K == KConst {
-			a = scalar(types.Typ[types.Int], BVBig(a.Big.(*bigInt).v, 64))
+			a = scalar(types.Typ[types.Int], IntBig(a.Big.(*bigInt).v))
 		}
 		if b.K == KConst {
-			b = scalar(types.Typ[types.Uint], BVBig(b.Big.(*bigInt).v, 64))
+			b = scalar(types.Typ[types.Uint], IntBig(b.Big.(*bigInt).v))
 		}
 		opT = a.T
 	} else {
@@ -491,9 +497,9 @@ func findField(stt *types.Struct, name string) []int {
 
 func (fr *Frame) toIdx(v Val) Term {
 	if v.K == KConst {
-		return BVBig(v.Big.(*bigInt).v, 64)
+		return IntBig(v.Big.(*bigInt).v)
 	}
-	return Resize(v.Term(), 64, isSigned(v.T))
+	return toInt(v.Term(), v.T)
 }
 
 // derefArray: for a pointer-to-array value return (objRef, array type).
@@ -547,6 +553,9 @@ func (fr *Frame) coerceTo(v Val, t types.Type) Val {
 	}
 	if b, ok := t.Underlying().(*types.Basic); ok {
 		if w, _, ok := basicWidth(b); ok {
+			if isWide(t) {
+				return scalar(t, IntBig(v.Big.(*bigInt).v))
+			}
 			return scalar(t, BVBig(v.Big.(*bigInt).v, w))
 		}
 	}
@@ -559,7 +568,7 @@ func (fr *Frame) evalSliceExpr(sc *Scope, x *ESlice) Val {
 	var obj, off, ln, cp Term
 	var rt types.Type
 	if at, ok := ptrToArray(b); ok {
-		obj, off, ln, cp = b.Term(), BV(0, 64), BV(at.Len(), 64), BV(at.Len(), 64)
+		obj, off, ln, cp = b.Term(), IntT(0), IntT(at.Len()), IntT(at.Len())
 		rt = types.NewSlice(at.Elem())
 	} else if _, ok := b.T.Underlying().(*types.Slice); ok {
 		obj, off, ln, cp = b.Obj(), b.Off(), b.Len(), b.Cap()
@@ -570,7 +579,7 @@ func (fr *Frame) evalSliceExpr(sc *Scope, x *ESlice) Val {
 	} else {
 		cfail("cannot slice %v in %s", b.T, ExprString(x))
 	}
-	lo := BV(0, 64)
+	lo := IntT(0)
 	if x.Lo != nil {
 		lo = fr.toIdx(fr.evalExpr(sc, x.Lo))
 	}
@@ -579,9 +588,9 @@ func (fr *Frame) evalSliceExpr(sc *Scope, x *ESlice) Val {
 		hi = fr.toIdx(fr.evalExpr(sc, x.Hi))
 	}
 	if isString(rt) {
-		return mkString(rt, obj, BVOp("bvadd", off, lo), BVOp("bvsub", hi, lo))
+		return mkString(rt, obj, IAdd(off, lo), ISub(hi, lo))
 	}
-	return mkSlice(rt, obj, BVOp("bvadd", off, lo), BVOp("bvsub", hi, lo), BVOp("bvsub", cp, lo))
+	return mkSlice(rt, obj, IAdd(off, lo), ISub(hi, lo), ISub(cp, lo))
 }
 
 func (fr *Frame) boundVar(sc *Scope, name string, t types.Type) (Term, *Scope) {
@@ -625,7 +634,7 @@ func (fr *Frame) evalCall(sc *Scope, x *ECall) Val {
 		argn(1)
 		v := fr.evalExpr(sc, x.Args[0])
 		if at, ok := ptrToArray(v); ok {
-			return scalar(intT, BV(at.Len(), 64))
+			return scalar(intT, IntT(at.Len()))
 		}
 		switch u := v.T.Underlying().(type) {
 		case *types.Slice:
@@ -634,7 +643,7 @@ func (fr *Frame) evalCall(sc *Scope, x *ECall) Val {
 			}
 			return scalar(intT, v.Cap())
 		case *types.Array:
-			return scalar(intT, BV(u.Len(), 64))
+			return scalar(intT, IntT(u.Len()))
 		case *types.Basic:
 			if isString(v.T) {
 				return scalar(intT, v.Len())
@@ -646,11 +655,16 @@ func (fr *Frame) evalCall(sc *Scope, x *ECall) Val {
 		a := fr.evalExpr(sc, x.Args[0])
 		b := fr.evalExpr(sc, x.Args[1])
 		a, b = fr.coerce(a, b), fr.coerce(b, a)
-		op := "bvule"
-		if isSigned(a.T) {
-			op = "bvsle"
+		var c Term
+		if a.Term().Sort == SInt {
+			c = ILe(a.Term(), b.Term())
+		} else {
+			op := "bvule"
+			if isSigned(a.T) {
+				op = "bvsle"
+			}
+			c = BVCmp(op, a.Term(), b.Term())
 		}
-		c := BVCmp(op, a.Term(), b.Term())
 		if name == "min" {
 			return scalar(a.T, Ite(c, a.Term(), b.Term()))
 		}
@@ -672,7 +686,7 @@ func (fr *Frame) evalCall(sc *Scope, x *ECall) Val {
 		hi := fr.toIdx(fr.evalExpr(sc, x.Args[2]))
 		bv, sc2 := fr.boundVar(sc, id.Name, intT)
 		body := fr.evalBool(sc2, x.Args[3])
-		rng := And(BVCmp("bvsle", lo, bv), BVCmp("bvslt", bv, hi))
+		rng := InRange(bv, lo, hi)
 		var pats []Term
 		for _, p := range x.Args[4:] {
 			pv := fr.evalExpr(sc2, p)
@@ -709,7 +723,7 @@ func (fr *Frame) evalCall(sc *Scope, x *ECall) Val {
 		b := fr.evalExpr(sc, x.Args[0])
 		i := fr.toIdx(fr.evalExpr(sc, x.Args[1]))
 		b0 := fr.byteAt(sc, b, i)
-		b1 := fr.byteAt(sc, b, BVOp("bvadd", i, BV(1, 64)))
+		b1 := fr.byteAt(sc, b, IAdd(i, IntT(1)))
 		return scalar(types.Typ[types.Uint16], app(BVSort(16), "concat", b0, b1))
 	case "BE32":
 		argn(2)
@@ -717,7 +731,7 @@ func (fr *Frame) evalCall(sc *Scope, x *ECall) Val {
 		i := fr.toIdx(fr.evalExpr(sc, x.Args[1]))
 		var bs []Term
 		for k := int64(0); k < 4; k++ {
-			bs = append(bs, fr.byteAt(sc, b, BVOp("bvadd", i, BV(k, 64))))
+			bs = append(bs, fr.byteAt(sc, b, IAdd(i, IntT(k))))
 		}
 		return scalar(types.Typ[types.Uint32], app(BVSort(32), "concat", bs...))
 	case "fresh":
@@ -739,7 +753,7 @@ func (fr *Frame) evalCall(sc *Scope, x *ECall) Val {
 		b := fr.evalExpr(sc, x.Args[1])
 		lo := fr.toIdx(fr.evalExpr(sc, x.Args[2]))
 		hi := fr.toIdx(fr.evalExpr(sc, x.Args[3]))
-		return scalar(boolT, And(Eq(s.Obj(), b.Obj()), Eq(s.Off(), BVOp("bvadd", b.Off(), lo)), Eq(s.Len(), BVOp("bvsub", hi, lo))))
+		return scalar(boolT, And(Eq(s.Obj(), b.Obj()), Eq(s.Off(), IAdd(b.Off(), lo)), Eq(s.Len(), ISub(hi, lo))))
 	case "sameObj":
 		argn(2)
 		a := fr.evalExpr(sc, x.Args[0])
@@ -809,9 +823,8 @@ func (fr *Frame) convertVal(v Val, t types.Type) Val {
 	if v.K == KConst {
 		return fr.coerceTo(v, t)
 	}
-	if isInteger(t) && v.K == KNormal && len(v.C) == 1 && sortWidth(v.C[0].Sort) > 0 {
-		w, _, _ := basicWidth(t.Underlying().(*types.Basic))
-		return scalar(t, Resize(v.C[0], w, isSigned(v.T)))
+	if isInteger(t) && v.K == KNormal && len(v.C) == 1 && isInteger(v.T) {
+		return fr.convInt(v, v.T, t)
 	}
 	// same-layout conversion (named types)
 	if len(fr.en.layout(t)) == len(v.C) {
@@ -830,26 +843,26 @@ func (fr *Frame) byteAt(sc *Scope, b Val, i Term) Term {
 	if _, ok := b.T.Underlying().(*types.Array); ok {
 		return Select(b.C[0], i)
 	}
-	return fr.loadElem(sc.st, b.Obj(), BVOp("bvadd", b.Off(), i), types.Typ[types.Uint8], 0, -1, types.Typ[types.Uint8]).Term()
+	return fr.loadElem(sc.st, b.Obj(), IAdd(b.Off(), i), types.Typ[types.Uint8], 0, -1, types.Typ[types.Uint8]).Term()
 }
 
 // byteAtBase reads b[base+k] with the index built as (off+base)+k.
 func (fr *Frame) byteAtBase(sc *Scope, b Val, base, k Term) Term {
 	if at, ok := ptrToArray(b); ok {
-		return fr.loadElem(sc.st, b.Term(), BVOp("bvadd", base, k), at.Elem(), 0, -1, at.Elem()).Term()
+		return fr.loadElem(sc.st, b.Term(), IAdd(base, k), at.Elem(), 0, -1, at.Elem()).Term()
 	}
 	if _, ok := b.T.Underlying().(*types.Array); ok {
-		return Select(b.C[0], BVOp("bvadd", base, k))
+		return Select(b.C[0], IAdd(base, k))
 	}
-	return fr.loadElem(sc.st, b.Obj(), BVOp("bvadd", BVOp("bvadd", b.Off(), base), k), types.Typ[types.Uint8], 0, -1, types.Typ[types.Uint8]).Term()
+	return fr.loadElem(sc.st, b.Obj(), IAdd(IAdd(b.Off(), base), k), types.Typ[types.Uint8], 0, -1, types.Typ[types.Uint8]).Term()
 }
 
 func (fr *Frame) bytesEq(sc *Scope, a Val, ai Term, b Val, bi Term, n Term) Term {
 	fr.top.nbound++
-	k := Term{fmt.Sprintf("k!q%d", fr.top.nbound), SBV64}
+	k := Term{fmt.Sprintf("k!q%d", fr.top.nbound), SInt}
 	x := fr.byteAtBase(sc, a, ai, k)
 	y := fr.byteAtBase(sc, b, bi, k)
-	return forallRange(k, BV(0, 64), n, Eq(x, y), nil)
+	return forallRange(k, IntT(0), n, Eq(x, y), nil)
 }
 
 func (fr *Frame) applySpec(sc *Scope, sf *SpecFunc, x *ECall) Val {
@@ -908,13 +921,13 @@ func mustParseType(s string) Expr {
 // addIdx builds base+i, re-associating (base + (a + b)) to ((base + a) + b) so that a
 // bound variable in the last position can be normalised away (see normaliseQuant).
 func addIdx(base, i Term) Term {
-	if strings.HasPrefix(i.S, "(bvadd ") {
+	if strings.HasPrefix(i.S, "(+ ") {
 		t := parseSx(i.S)
 		if len(t.kids) == 3 {
 			a := Term{t.kids[1].String(), i.Sort}
 			b := Term{t.kids[2].String(), i.Sort}
-			return BVOp("bvadd", BVOp("bvadd", base, a), b)
+			return IAdd(IAdd(base, a), b)
 		}
 	}
-	return BVOp("bvadd", base, i)
+	return IAdd(base, i)
 }
